@@ -176,12 +176,14 @@ theorem secondEntry_mem (soft : Soft W) (e : FwEntry) (s : Node W) (f : Frame) (
   · injection h with h; subst h; split <;> simp [nextEntries]
   · cases h
   · split at h
+    · cases h
     · split at h
-      · injection h with h; subst h; simp [nextEntries]
       · split at h
         · injection h with h; subst h; simp [nextEntries]
-        · cases h
-    · cases h
+        · split at h
+          · injection h with h; subst h; simp [nextEntries]
+          · cases h
+      · cases h
 
 /-! ## 3. the cut theorem with a frame class -/
 
@@ -207,6 +209,10 @@ inductive RoleC (W : Type)
       for which the forwarding hypothesis is asked instead (zones that do not lead to the protected side) -/
   | fwDenyC (soft : Soft W) (Cp : Packet → Prop) (D : FwEntry → Bool) (Z : FwEntry → Prop)
   | frozen (soft : Soft W) (s0 : Node W)
+  /-- an attacker-side PrimAITE element with *modelled* software (a host behind its session manager, a switch — see
+      Props/C06Net.lean): it keeps invariant `J` (e.g. "these are my interfaces") and, from a `J`-state, turns class frames
+      into class frames; nothing is assumed, the condition is `SafeAct` itself and is PROVED for the host / switch models -/
+  | interiorI (soft : Soft W) (J : Node W → Prop)
 
 def invC (sys : Sys N Nat Frame (Node W)) (side : N → Bool) (role : N → RoleC W) (n : N) (s : Node W) : Prop :=
   match role n with
@@ -216,6 +222,7 @@ def invC (sys : Sys N Nat Frame (Node W)) (side : N → Bool) (role : N → Role
   | .routerDenyC _ Cp ifs => s.kind = .router ∧ DeniesClass Cp (s.acls .router) ∧ s.ifaces = ifs
   | .fwDenyC _ Cp D _ => s.kind = .firewall ∧ ∀ e, D e = true → DeniesClass Cp (s.acls (entryAcl e))
   | .frozen _ s0 => s = s0 ∧ ∀ p, SideFacing sys side n p → portEnabled s0 p = false
+  | .interiorI _ J => J s
 
 /-- what remains a hypothesis at a firewall port whose *first* list does not deny the class -/
 structure FwSecondOK (sys : Sys N Nat Frame (Node W)) (side : N → Bool) (Cl : N → Nat → Frame → Prop)
@@ -250,6 +257,9 @@ def RoleOKC (sys : Sys N Nat Frame (Node W)) (side : N → Bool) (Cl : N → Nat
       ∀ p e, SideFacing sys side n p → portEntry p = some e →
         D e = true ∨ (FwSecondOK sys side Cl role n soft Cp D Z p e ∧ ∀ e2 ∈ nextEntries e, D e2 = true ∨ Z e2)
   | .frozen soft _ => sys.handler n = nodeRx soft
+  | .interiorI soft J => sys.handler n = nodeRx soft ∧
+      ∀ s p f, J s → SideFacing sys side n p → Cl n p f →
+        SafeAct sys side (FromSideC sys side Cl) (invC sys side role) n (nodeRx soft s p f)
 
 omit [DecidableEq N] in
 theorem safe_of_interior_emits (sys : Sys N Nat Frame (Node W)) (side : N → Bool) (Cl : N → Nat → Frame → Prop)
@@ -453,6 +463,9 @@ theorem C06_cut_class (sys : Sys N Nat Frame (Node W)) (side : N → Bool) (Cl :
                   · rename_i hz; exact hfinal ok .extOut _ hI2 (by simp [secondEntry, hz])
                 | dmzOut =>
                   simp only [fwNext]
+                  by_cases hb : (f'.dstMac == bcastMac) = true
+                  · simp only [hb, if_true, guardSends]; exact SafeAct.done hI2
+                  simp only [hb, Bool.false_eq_true, if_false]
                   rw [guard_bind]
                   refine safe_bind sys side _ _ n _ _ (ok.1.lookup rfl _ f' hI2 hcp) ?_
                   intro s3 hs3
@@ -462,10 +475,10 @@ theorem C06_cut_class (sys : Sys N Nat Frame (Node W)) (side : N → Bool) (Cl :
                     simp only
                     by_cases h1 : q = extPort
                     · simp only [h1, if_true]
-                      exact hfinal ok .extOut s3 hs3 (by simp [secondEntry, hq, h1])
+                      exact hfinal ok .extOut s3 hs3 (by simp [secondEntry, hb, hq, h1])
                     · by_cases h2 : q = intPort
                       · simp only [h2, if_true, extPort, intPort]
-                        exact hfinal ok .intIn s3 hs3 (by simp [secondEntry, hq, h2, extPort, intPort])
+                        exact hfinal ok .intIn s3 hs3 (by simp [secondEntry, hb, hq, h2, extPort, intPort])
                       · simp only [h1, h2, if_false, guardSends]
                         exact SafeAct.done hs3
                 | extOut => simp only [fwNext, guardSends]; exact SafeAct.done hI2
@@ -477,6 +490,10 @@ theorem C06_cut_class (sys : Sys N Nat Frame (Node W)) (side : N → Bool) (Cl :
     have hI' : s = s0 ∧ ∀ p, SideFacing sys side n p → portEnabled s0 p = false := by simpa [invC, hr] using hI
     rw [hok, C06_iface_disabled_inert_rx soft s p f (by rw [hI'.1]; exact hI'.2 p hK.1)]
     exact SafeAct.done hI
+  | interiorI soft J =>
+    simp only [hr] at hok
+    rw [hok.1]
+    exact hok.2 s p f (by simpa [invC, hr] using hI) hK.1 hK.2
 
 /-- **C06 for a frame class.**  In a class cut, any sequence of admissible operations on the attacker side (their
 emissions in the class) leaves every protected node's state exactly as it was. -/
@@ -560,7 +577,8 @@ theorem C06_router_arp_safe (sys : Sys N Nat Frame (Node W)) (side : N → Bool)
       (f.arpReq = false → f.dstMac = i.mac → f.pkt.dstIp = i.ip))
     (hdisj : ∀ p i q j ip, SideFacing sys side n p → ifs[p]? = some i → ifs[q]? = some j → i.inNet ip = true →
       j.inNet ip = true → ∀ m r', sys.wire n q = some (m, r') → side m = true)
-    (hreply : ∀ q o i f m r', sys.wire n q = some (m, r') → Cl m r' (arpReplyFrame o i f))
+    (hreply : ∀ p f x q o i m r', SideFacing sys side n p → Cl n p f → subjectToAcl f = some false → f.arpReq = true →
+      sys.wire n q = some (m, r') → Cl m r' (arpReplyFrame o i { f with ttl := x }))
     (hn : side n = true) :
     ∀ s p i f f', invC sys side role n s → SideFacing sys side n p → Cl n p f → s.ifaces[p]? = some i →
       ifaceRx s.kind s.ifaces i f = .up f' → subjectToAcl f' = some false →
@@ -629,7 +647,8 @@ theorem C06_router_arp_safe (sys : Sys N Nat Frame (Node W)) (side : N → Bool)
                   simp only [Nat.sub_zero] at hj
                   rw [hifs2] at hj
                   rw [e2] at hjin
-                  exact ⟨hdisj p i q j f.arpSnd hsf hi' hj hin hjin m r' hw, ⟨n, q, hn, hw⟩, hreply q o i2 f' m r' hw⟩
+                  exact ⟨hdisj p i q j f.arpSnd hsf hi' hj hin hjin m r' hw, ⟨n, q, hn, hw⟩,
+                    by rw [hf']; exact hreply p f _ q o i2 m r' hsf hcl hsub0 hreq' hw⟩
                 · exact SafeAct.done hI3
   · -- `process_frame`: broadcast or addressed to the router itself → dropped
     rename_i hts
